@@ -106,6 +106,14 @@ func (s *Schema) generateExample() ([]byte, error) {
 // matches the pattern.
 const exampleAttempts = 10
 
+// exampleMixedAttempts is the same number for a pattern of the last search (see
+// mixedExample): its classes are narrowed, there is hardly anything to draw.
+// exampleMixedSearches is the maximal number of such patterns tried.
+const (
+	exampleMixedAttempts = 2
+	exampleMixedSearches = 256
+)
+
 // examplePaddings are put before and after a generated string which doesn't
 // match the pattern: a word and a non-word character.
 var examplePaddings = []string{"", "a", " "}
@@ -131,38 +139,41 @@ var examplePaddings = []string{"", "a", " "}
 // of \W for (?m)^a$\W^b$, an ASCII letter out of \pL for \d\B\pL. The padding
 // is of no use there. When still nothing was found, the search is done for the
 // pattern with the classes narrowed to the characters of one kind the assertions
-// tell apart, for every kind in turn (see exampleNarrowings).
+// tell apart, for every kind in turn (see exampleNarrowings). Two assertions may
+// require characters of different kinds, like both of the above in
+// (?m)^a$\W^\d\B\pL, so the last search chooses the kind for every class on its
+// own (see mixedExample).
 func matchingExample(pattern string, seed int64) (string, bool) {
 	re, err := regexp.Compile(pattern)
 	if err != nil {
 		return "", false
 	}
 
-	if example, ok := searchExample(re, generatorPattern(pattern), seed); ok {
+	if example, ok := searchExample(re, generatorPattern(pattern), seed, exampleAttempts); ok {
 		return example, true
 	}
 
 	if p, ok := patternWithoutSurrogates(pattern); ok {
-		if example, ok := searchExample(re, p, seed); ok {
+		if example, ok := searchExample(re, p, seed, exampleAttempts); ok {
 			return example, true
 		}
 	}
 
 	for _, limits := range exampleNarrowings {
 		if p, ok := narrowedPattern(pattern, limits); ok {
-			if example, ok := searchExample(re, p, seed); ok {
+			if example, ok := searchExample(re, p, seed, exampleAttempts); ok {
 				return example, true
 			}
 		}
 	}
-	return "", false
+	return mixedExample(re, pattern, seed)
 }
 
 // searchExample looks for a string matching re among the strings generated from
 // the pattern genPattern.
-func searchExample(re *regexp.Regexp, genPattern string, seed int64) (string, bool) {
-	candidates := make([]string, 0, exampleAttempts)
-	for i := int64(0); i < exampleAttempts; i++ {
+func searchExample(re *regexp.Regexp, genPattern string, seed, attempts int64) (string, bool) {
+	candidates := make([]string, 0, attempts)
+	for i := int64(0); i < attempts; i++ {
 		candidate, err := generate(genPattern, seed+i)
 		if err != nil {
 			continue
@@ -265,12 +276,14 @@ func rangesWithoutSurrogates(ranges []rune) ([]rune, bool) {
 
 // exampleNarrowings are the kinds of characters (sorted pairs of range bounds)
 // the zero-width assertions tell apart: the line feed (^ and $ in the multi-line
-// mode), the ASCII word characters and the printable ASCII non-word characters
-// (\b and \B).
+// mode), the ASCII word characters and the non-word characters (\b and \B). The
+// latter are everything else, not only the printable ASCII ones, which are
+// a kind of their own to be preferred.
 var exampleNarrowings = [][]rune{
 	{'\n', '\n'},
 	{'0', '9', 'A', 'Z', '_', '_', 'a', 'z'},
 	{' ', '/', ':', '@', '[', '^', '`', '`', '{', '~'},
+	{0, '\t', '\v', 0x1F, 0x7F, unicode.MaxRune},
 }
 
 // narrowedPattern returns the pattern for the generator (see generatorPattern)
@@ -291,18 +304,8 @@ func narrowedPattern(pattern string, limits []rune) (string, bool) {
 }
 
 func narrowClasses(re *syntax.Regexp, limits []rune) bool {
-	var ranges []rune
-	switch re.Op {
-	case syntax.OpCharClass:
-		ranges = re.Rune
-	case syntax.OpAnyChar:
-		ranges = []rune{0, unicode.MaxRune}
-	case syntax.OpAnyCharNotNL:
-		ranges = []rune{0, '\n' - 1, '\n' + 1, unicode.MaxRune}
-	}
-
 	narrowed := false
-	if within, ok := rangesWithin(ranges, limits); ok {
+	if within, ok := rangesWithin(classRanges(re), limits); ok {
 		re.Op = syntax.OpCharClass
 		re.Rune = within
 		narrowed = true
@@ -313,6 +316,20 @@ func narrowClasses(re *syntax.Regexp, limits []rune) bool {
 		}
 	}
 	return narrowed
+}
+
+// classRanges returns the characters (sorted pairs of range bounds) of the
+// character class or dot, nil for any other node.
+func classRanges(re *syntax.Regexp) []rune {
+	switch re.Op {
+	case syntax.OpCharClass:
+		return re.Rune
+	case syntax.OpAnyChar:
+		return []rune{0, unicode.MaxRune}
+	case syntax.OpAnyCharNotNL:
+		return []rune{0, '\n' - 1, '\n' + 1, unicode.MaxRune}
+	}
+	return nil
 }
 
 // rangesWithin returns the part of the class which is within the limits (both
@@ -338,6 +355,82 @@ func rangesWithin(ranges, limits []rune) ([]rune, bool) {
 		}
 	}
 	return res, 0 < resSize && resSize < size
+}
+
+// mixedExample looks for a string matching re among the strings generated from
+// the pattern in which every character class (and dot) is narrowed to one of
+// the kinds it has characters of (see exampleNarrowings), each class on its own.
+// The combinations are tried in a fixed order, the last class changing first,
+// exampleMixedSearches of them at most.
+func mixedExample(re *regexp.Regexp, pattern string, seed int64) (string, bool) {
+	parsed, err := syntax.Parse(pattern, syntax.Perl)
+	if err != nil {
+		return "", false
+	}
+
+	// options[i] are the classes to put in place of the i-th one, nil is for
+	// the class as it is: all its characters are of the same kind.
+	var options [][][]rune
+	for _, class := range classNodes(parsed, nil) {
+		var oo [][]rune
+		for _, limits := range exampleNarrowings {
+			if within, ok := rangesWithin(classRanges(class), limits); ok {
+				oo = append(oo, within)
+			}
+		}
+		if oo == nil {
+			oo = [][]rune{nil}
+		}
+		options = append(options, oo)
+	}
+
+	chosen := make([]int, len(options))
+	for n := 0; n < exampleMixedSearches; n++ {
+		parsed, err = syntax.Parse(pattern, syntax.Perl)
+		if err != nil {
+			return "", false
+		}
+		for i, class := range classNodes(parsed, nil) {
+			if within := options[i][chosen[i]]; within != nil {
+				class.Op = syntax.OpCharClass
+				class.Rune = within
+			}
+		}
+		removeSurrogates(parsed)
+		replaceNonASCIIClasses(parsed)
+		if example, ok := searchExample(re, parsed.String(), seed, exampleMixedAttempts); ok {
+			return example, true
+		}
+		if !nextChoice(chosen, options) {
+			break
+		}
+	}
+	return "", false
+}
+
+// classNodes appends the character classes and dots of the pattern to nodes, in
+// the order they are written.
+func classNodes(re *syntax.Regexp, nodes []*syntax.Regexp) []*syntax.Regexp {
+	switch re.Op {
+	case syntax.OpCharClass, syntax.OpAnyChar, syntax.OpAnyCharNotNL:
+		nodes = append(nodes, re)
+	}
+	for _, sub := range re.Sub {
+		nodes = classNodes(sub, nodes)
+	}
+	return nodes
+}
+
+// nextChoice turns chosen (an index in options[i] for every i) into the next
+// combination. The result is false when there are no more of them.
+func nextChoice(chosen []int, options [][][]rune) bool {
+	for i := len(chosen) - 1; i >= 0; i-- {
+		if chosen[i]++; chosen[i] < len(options[i]) {
+			return true
+		}
+		chosen[i] = 0
+	}
+	return false
 }
 
 // generatorPattern returns the pattern the example should be generated from.
